@@ -55,7 +55,7 @@ func genSetOp(t *rapid.T) op {
 // opGroup draws one op (or a short burst). Lists are built with rapid.SliceOfN so that rapid can
 // shrink a failing history by deleting elements.
 func opGroup(nmsg int, withCleanup, withInject bool) *rapid.Generator[[]op] {
-	kinds := []string{"observe", "observe", "loopback", "loopback", "gossip", "gossip", "gossip", "gossip", "gossipvalid", "gossipvalid", "gossipvalid", "gossipvalid", "inbound", "inbound", "set", "quorumrun", "quorumrun"}
+	kinds := []string{"observe", "observe", "loopback", "loopback", "gossip", "gossip", "gossip", "gossip", "gossipvalid", "gossipvalid", "gossipvalid", "gossipvalid", "inbound", "inbound", "set", "quorumrun", "quorumrun", "settle"}
 	if withCleanup {
 		kinds = append(kinds, "cleanup")
 	}
@@ -65,7 +65,11 @@ func opGroup(nmsg int, withCleanup, withInject bool) *rapid.Generator[[]op] {
 	return rapid.Custom(func(t *rapid.T) []op {
 		switch k := rapid.SampledFrom(kinds).Draw(t, "k"); k {
 		case "observe", "inject":
-			return []op{{K: k, A: rapid.IntRange(0, nmsg-1).Draw(t, "m")}}
+			o := op{K: k, A: rapid.IntRange(0, nmsg-1).Draw(t, "m")}
+			if k == "observe" && rapid.IntRange(0, 5).Draw(t, "busyqueue") == 0 {
+				o.D = 1
+			}
+			return []op{o}
 		case "loopback":
 			return []op{{K: k, A: rapid.IntRange(0, 5).Draw(t, "which"), B: rapid.SampledFrom([]int{0, 0, 0, 1}).Draw(t, "keep")}}
 		case "gossip":
@@ -95,6 +99,8 @@ func opGroup(nmsg int, withCleanup, withInject bool) *rapid.Generator[[]op] {
 			return []op{{K: k, A: rapid.IntRange(0, nmsg-1).Draw(t, "m"), B: rapid.IntRange(0, len(inboundKinds)-1).Draw(t, "kind"), C: rapid.IntRange(0, 1000).Draw(t, "seed")}}
 		case "set":
 			return []op{genSetOp(t)}
+		case "settle":
+			return []op{{K: "settle"}}
 		case "cleanup":
 			return []op{{K: k, A: rapid.IntRange(0, 7).Draw(t, "shift")}}
 		}
@@ -176,7 +182,9 @@ func genC02(t *rapid.T) c02Case {
 	}
 	extra := rapid.IntRange(0, 6).Draw(t, "extra")
 	for j := 0; j < extra; j++ {
-		switch rapid.IntRange(0, 6).Draw(t, "ek") {
+		switch rapid.IntRange(0, 7).Draw(t, "ek") {
+		case 7:
+			ev = append(ev, op{K: "settle"})
 		case 0:
 			ev = append(ev, op{K: "observe", A: rapid.IntRange(0, nmsg-1).Draw(t, "m")})
 		case 1:
